@@ -97,10 +97,10 @@ Print Assumptions C14_reachable_invariant.
 Example C14_ex_hyps : hyps sv_id unit run_header.
 Proof. exact hyps_example. Qed.
 
-(* the observable fields the theorem speaks about: 66 of the 77 struct fields under Execute, 69 under
-   ExecuteContext (the other 8 are caches and scratch) *)
-Example C14_ex_obs : length (obs_fields EExec) = 66%nat /\ length all_fields = 77%nat /\
-                     length (obs_fields (ECtx true VNil VNil)) = 69%nat.
+(* the observable fields the theorem speaks about: 67 of the 80 struct fields under Execute, 70 under
+   ExecuteContext (the other 10: caches, scratch, and the two setLine shadows savedInputMode/savedCSVInputConfig) *)
+Example C14_ex_obs : length (obs_fields EExec) = 67%nat /\ length all_fields = 80%nat /\
+                     length (obs_fields (ECtx true VNil VNil)) = 70%nat.
 Proof. vm_compute. repeat split; reflexivity. Qed.
 
 (* the history that refuted the statement before the repair: a run that read a CSV header and left reparseCSV
